@@ -91,13 +91,22 @@ func (dec *Decoder) readStringAsBytes(utf16Length int) (data []byte, safe bool) 
 			data = make([]byte, 0, utf16Length*3)
 		}
 		data = append(data, buf...)
-		if !dec.loadMore() {
-			if remains < 0 {
-				if dec.Error == nil {
-					dec.Error = ErrInvalidUTF8
+		for {
+			if !dec.loadMore() {
+				if remains < 0 {
+					if dec.Error == nil {
+						dec.Error = ErrInvalidUTF8
+					}
 				}
+				return
 			}
-			return
+			n := dec.tail - dec.head
+			if n >= -remains {
+				break
+			}
+			// the character split by the previous read continues beyond this one too
+			data = append(data, dec.buf[dec.head:dec.tail]...)
+			remains += n
 		}
 		data = append(data, dec.buf[dec.head:dec.head-remains]...)
 		dec.head -= remains
